@@ -174,6 +174,8 @@ pub struct World {
     pub last_tx_ok: bool,
     pub last_fail: String,
     pub tf_urls: (String, String),
+    /// `extreme` only: the next successful sub-message is answered with a malformed reply ("nodata" | "baddata")
+    pub bad_reply_next: Option<&'static str>,
 }
 
 impl World {
@@ -191,6 +193,7 @@ impl World {
             last_tx_ok: false,
             last_fail: String::new(),
             tf_urls: (String::new(), String::new()),
+            bad_reply_next: None,
         }
     }
 
@@ -222,6 +225,13 @@ impl World {
                 (Ok((s, seq)), ReplyOn::Always) | (Ok((s, seq)), ReplyOn::Success) => {
                     seen.push(s.clone());
                     let seq = seq.unwrap_or(0);
+                    if let Some(kind) = self.bad_reply_next.take() {
+                        self.ops.push(format!("reply {} {}", sm.id, kind));
+                        let c = self.sim.reply(sm.id, kind, 0);
+                        if c != Class::Ok {
+                            return Err(format!("malformed reply refused: {}", self.sim.last_err));
+                        }
+                    }
                     self.ops.push(format!("reply {} ok {}", sm.id, seq));
                     let c = self.sim.reply(sm.id, "ok", seq);
                     if c != Class::Ok {
